@@ -43,19 +43,19 @@ ASSUMPTIONS = [
     "a crash is os._exit at a line boundary of the job path plus truncation of the written files; "
     "faults inside C code (pickle.dump, filelock internals) are covered only through truncation",
     "the whole process tree of the dead submission is gone (killed and reaped) before the resubmission",
-    "a hang is decided by a watchdog of max(90 s, 60 x the measured cost of a plain run; normal cost "
-    "0.1-1.5 s) and reported only when the traced job path made no progress for >= 60 s while an "
+    "a hang is decided by a watchdog of max(90 s, 40 x the measured cost of a plain run; normal cost "
+    "0.1-1.5 s) and reported only when the traced job path reached no new line for >= 60 s while an "
     "untouched lock file of the dead process is still there; any other timeout is counted as inconclusive",
-    "quick tier: every point of the python and shell tasks and of the debug workflow, every 3rd "
-    "point of the cf workflow, 32 cut lengths per file; thorough: all points, all cut lengths of the "
-    "result file of the python task",
+    "quick tier: every point of the python and shell tasks, every 2nd point of the debug workflow and "
+    "every 4th of the cf workflow (residue rotates with VERIF_SEED), 32 (python task) / 16 cut lengths per result file; "
+    "thorough: all points, all cut lengths of the result file of the python task",
 ]
 SHARDS = {"quick": 16, "thorough": 16}
 WALL = {"quick": 240, "thorough": 1500}
 EXHAUSTIVE_WHEN_COMPLETED = True
 EXHAUSTIVE_NOTE = (
     "all executed line events of the job path x {crash, interrupt} for the listed task kinds "
-    "(quick: cf workflow sub-sampled 1/3); truncation lengths sampled except where stated"
+    "(quick: debug workflow sub-sampled 1/2, cf workflow 1/4); truncation lengths sampled except where stated"
 )
 
 KINDS = ["python", "shell", "wf_debug", "wf_cf"]
@@ -99,7 +99,7 @@ def dry_run(kind, d: Path):
 
 
 def timeouts(kind):
-    """(fault-run watchdog, resubmission watchdog): >= 150 s / 90 s and >= 60x the cost of a plain
+    """(fault-run watchdog, resubmission watchdog): >= 150 s / 90 s and >= 40x the cost (capped at 300 s / 240 s) of a plain
     run measured in this process, so that a loaded machine cannot turn slowness into a verdict"""
     if kind not in DRY_WALL:
         dd = scratchdir.new("c12cal")
@@ -108,7 +108,7 @@ def timeouts(kind):
         finally:
             scratchdir.rm(dd)
     w = DRY_WALL[kind]
-    return min(600.0, max(FAULT_TIMEOUT, 60 * w)), min(400.0, max(RESUB_TIMEOUT, 60 * w))
+    return min(300.0, max(FAULT_TIMEOUT, 40 * w)), min(240.0, max(RESUB_TIMEOUT, 40 * w))
 
 
 def _lock_files(cache: Path):
@@ -166,7 +166,13 @@ def _resubmit_and_judge(case, cd: G.CaseDir, d: Path, counts_before: dict, what:
         # untouched, and its owner is dead and (2) the job path made no progress for >= IDLE_FOR_HANG
         now = t_start + r["wall_s"]
         rows = LF.read_trace(d / "mon_resub")
-        last_t = rows[-1][4] if rows else t_start
+        # progress = an event not seen before (a polling loop inside the job path is not progress)
+        seen, last_t, last_new = set(), t_start, None
+        for row in rows:
+            key = (row[1], row[2], row[3])
+            if key not in seen:
+                seen.add(key)
+                last_t, last_new = row[4], row
         idle = now - last_t
         after = _lock_state(cd.cache)
         stale = []
@@ -175,7 +181,7 @@ def _resubmit_and_judge(case, cd: G.CaseDir, d: Path, counts_before: dict, what:
                 pid = _lock_owner(cd.cache / rel)
                 if pid is not None and not LF.pid_alive(pid):
                     stale.append(rel)
-        state.update(idle_s=round(idle, 1), last_event=rows[-1][2:4] if rows else None,
+        state.update(idle_s=round(idle, 1), last_new_event=last_new[2:4] if last_new else None,
                      watchdog_s=resub_timeout)
         if stale and idle >= IDLE_FOR_HANG:
             LAST["resub"] = "hang"
@@ -202,6 +208,21 @@ def _resubmit_and_judge(case, cd: G.CaseDir, d: Path, counts_before: dict, what:
         LAST["resub"] = "reexecuted_part"
     state["stored_before"] = res.get("stored_before")
     state["stored_after"] = res.get("stored_after")
+    # defect model shared by every manifestation of "an incomplete result is stored as a success":
+    # some job directory held errored=False with outputs None/NOTHING before the resubmission and
+    # the resubmission did not come back with the correct outputs (it returned that result, or a
+    # downstream node / the workflow broke on it)
+    poisoned = [n for n, v in (res.get("stored_before") or {}).items()
+                if isinstance(v, dict) and v["errored"] is False
+                and (v["outputs"] is None or "<NOTHING>" in v["outputs"].values())]
+    correct = (not res["raised"] and res["errored"] is False and res["outputs"] == expected)
+    if poisoned and not correct:
+        recs.append(dict(
+            signature=f"incomplete-result-returned-as-success:{case['mode']}:served-from-cache",
+            observed=dict(stored_as_success_without_outputs=poisoned, raised=res["raised"],
+                          errored=res["errored"], outputs=res["outputs"]),
+            expected=f"outputs {expected}", detail=state))
+        return recs
     if res["raised"]:
         recs.append(dict(signature=f"resubmission-raises:{case['mode']}:{res['raised']['sig']}",
                          observed=res["raised"], expected=f"outputs {expected}", detail=state))
@@ -411,6 +432,22 @@ def cuts_for(size, n_spread, every=False):
     return cuts
 
 
+def interleave(cases):
+    """proportional interleaving of the (kind, mode) groups, so that a run that is cut short by its
+    time budget has still sampled every group evenly (the order is deterministic)"""
+    groups: dict = {}
+    for c in cases:
+        groups.setdefault((c["kind"], c["mode"], c.get("state")), []).append(c)
+    order = {g: i for i, g in enumerate(groups)}
+    keyed = []
+    for g, lst in groups.items():
+        for j, c in enumerate(lst):
+            # bit-reversal-like spread inside the group: early items cover the whole path
+            keyed.append(((j * 0.6180339887498949) % 1.0 if len(lst) > 1 else 0.0, order[g], j, c))
+    keyed.sort(key=lambda t: t[:3])
+    return [t[3] for t in keyed]
+
+
 def run(sh):
     base = scratchdir.new("c12dry")
     cases = []
@@ -418,10 +455,13 @@ def run(sh):
         trace, cd = dry_run(kind, base / kind)
         if sh.index == 0:  # the same in every shard
             sh.count(f"trace_events:{kind}", len(trace))
-        step = 3 if (sh.quick and kind == "wf_cf") else 1
+        # quick tier: the two nodes of the workflow run the same code path, so the workflows are
+        # sub-sampled (the residue class rotates with VERIF_SEED); thorough: every point
+        step = {"wf_debug": 2, "wf_cf": 4}.get(kind, 1) if sh.quick else 1
+        off = sh.base_seed % step
         for row in trace:
             k = row[0]
-            if k % step:
+            if k % step != off:
                 continue
             for mode in FAULT_MODES:
                 cases.append(dict(kind=kind, mode=mode, event_index=k, expect=[row[2], row[3]]))
@@ -433,23 +473,30 @@ def run(sh):
         n_spread = 32 if sh.quick else 64
         for (job, fname), size in sorted(sizes.items()):
             every = (not sh.quick) and kind == "python" and fname == "_result.pklz"
-            if sh.quick and kind == "wf_cf" and fname == "_job.pklz":
+            if sh.quick and (fname == "_job.pklz" and kind != "python" or kind == "wf_cf" and job != "main"):
                 continue
-            for cut in cuts_for(size, n_spread, every):
+            n_cuts = n_spread if fname == "_result.pklz" else 8
+            if sh.quick and kind != "python":
+                n_cuts = min(n_cuts, 16)
+            for cut in cuts_for(size, n_cuts, every):
                 cases.append(dict(kind=kind, mode="truncate", state="complete", job=job,
                                   file=fname, cut=cut))
         for k, job, fname, phase in truncation_targets(kind, trace, sh):
-            if sh.quick and kind == "wf_cf" and not (job == "main" and fname == "_result.pklz"):
+            if sh.quick and (kind == "wf_cf" or (kind != "python" and fname == "_job.pklz")):
                 continue
             size = sizes.get((job, fname), 1024)
             every = (not sh.quick) and kind == "python" and fname == "_result.pklz"
             row = trace[k]
-            for cut in cuts_for(size, n_spread if fname == "_result.pklz" else 8, every):
+            n_cuts = n_spread if fname == "_result.pklz" else 8
+            if sh.quick and kind != "python":
+                n_cuts = min(n_cuts, 16)
+            for cut in cuts_for(size, n_cuts, every):
                 cases.append(dict(kind=kind, mode="truncate", state="crash", event_index=k,
                                   expect=[row[2], row[3]], job=job, file=fname, phase=phase,
                                   cut=cut))
     scratchdir.rm(base)
 
+    cases = interleave(cases)
     done_all = True
     for i, case in enumerate(cases):
         if i % sh.n != sh.index:
